@@ -26,7 +26,7 @@ def run(args):
 if __name__ == "__main__":
     b = base()
     seeds = sorted(os.listdir("/verif/seeded"))
-    seeds = [s for s in seeds if os.path.isdir(f"/verif/seeded/{s}")]
+    seeds = [s for s in seeds if os.path.isdir(f"/verif/seeded/{s}") and (os.environ.get("SEED_FILTER") or "") in s]
     with ProcessPoolExecutor(16) as ex:
         res = list(ex.map(run, [(s, f"/verif/seeded/{s}/patch.diff", b) for s in seeds]))
     missed = []
@@ -40,4 +40,4 @@ if __name__ == "__main__":
         print(f"{name:10s} {how} {sorted(fired)}")
     print("MISSED:", missed)
     print("OWN CHECK ANSWERS WITH AN ANALYSIS ERROR ONLY:", own_err)
-    json.dump({n: {"caught_by": sorted(f)} for n, f in res if f is not None}, open("/verif/out/seed_checks.json","w"), indent=1)
+    json.dump({n: {"caught_by": sorted(f)} for n, f in res if f is not None}, open(os.environ.get("SEED_CHECKS_OUT") or "/verif/out/seed_checks.json","w"), indent=1)
